@@ -36,6 +36,13 @@ def _ver_class(l):
     return "%s:%s" % (l["where"], "older" if v == "absent" or int(v) < 2 else "supported" if v == "2" else "newer")
 
 
+def _short(layout, f):
+    v = layout.get(f)
+    if f == "dirs":
+        return "workspace-" + str(v.get("workspace"))[:20]
+    return json.dumps(v, sort_keys=True)[:40]
+
+
 def _diff(got, exp):
     return sorted(k for k in exp if got.get(k) != exp[k])
 
@@ -112,7 +119,7 @@ def _check_case(case, root, out, real=None, mutate_expected=None):
         bad = _diff(seen, exp)
         stated = [f for f in bad if f in PRESERVE_FIELDS] if legacy_ok else [f for f in bad if f in ("dirs", "njobs", "pdocUser")]
         for f in stated:
-            report("violation", "migrate:%s=%s%s" % (f, json.dumps(seen[f], sort_keys=True)[:60], ":" + _ws_class(l0) if f in ("dirs", "njobs") else ""),
+            report("violation", "migrate:%s=%s%s" % (f, _short(seen, f), ":" + _ws_class(l0) if f in ("dirs", "njobs") else ""),
                    "after apply_migrations %s is %r, the specification requires %r; layout %r" % (f, seen[f], exp[f], l0))
         if not stated:
             report("drift", "migrate:%s:%s" % (shape, ",".join(bad) or "extra"), "after apply_migrations: differing fields %r (got %r), unexpected %r; layout %r"
@@ -251,7 +258,7 @@ def _work_random(item):
             want = mu.expected_view(jobs)
             view_ok = set(view) == set(want) and all(_same(view[j][f], want[j][f]) for j in want for f in ("sp", "doc", "files"))
             if l0["name"] != "None" and pdoc.get("signac_project_name") != real["name"]:
-                view_ok = False
+                view_ok = "project-name-not-in-document" if view_ok else False
         return {"res": res, "detail": detail, "post": post, "extra": extra, "res2": res2, "post2": post2, "extra2": extra2, "open": op3, "view_ok": view_ok}
     finally:
         shutil.rmtree(os.path.dirname(root), ignore_errors=True)
@@ -325,12 +332,12 @@ def run(ctx):
         elif o["post"] != e["post"] or o["extra"]:
             bad = _diff(o["post"], e["post"])
             stated = [f for f in bad if f in (PRESERVE_FIELDS if ok_expected else ("dirs", "njobs", "pdocUser"))]
-            findings.append({"kind": "violation" if stated else "drift", "sig": "migrate:%s=%s" % ((stated or bad or ["extra"])[0], json.dumps(o["post"].get((stated or bad or ["where"])[0]), sort_keys=True)[:60]),
+            findings.append({"kind": "violation" if stated else "drift", "sig": "migrate:%s=%s" % ((stated or bad or ["extra"])[0], _short(o["post"], (stated or bad or ["where"])[0])),
                              "what": what + "after apply_migrations fields %r differ (got %r, extra %r); layout %r" % (bad, {f: o["post"][f] for f in bad}, o["extra"], l0), "case": c, "real": c["real"]})
         if ok_expected and (o["res2"] != "ok" or o["post2"] != o["post"]):
             findings.append({"kind": "violation", "sig": "migrate:second-run:modified-or-failed", "what": what + "second migration: %s, layout then %r" % (o["res2"], o["post2"]), "case": c, "real": c["real"]})
         if ok_expected and (o["open"] != "ok" or o["view_ok"] is not True):
-            findings.append({"kind": "violation", "sig": "migrate:open-after:%s" % ("raises-" + o["open"] if o["open"] != "ok" else "jobs-differ"),
+            findings.append({"kind": "violation", "sig": "migrate:open-after:%s" % ("raises-" + o["open"] if o["open"] != "ok" else o["view_ok"] or "jobs-differ"),
                              "what": what + "opening afterwards: %s, same jobs: %s; layout %r" % (o["open"], o["view_ok"], l0), "case": c, "real": c["real"]})
     if keep:
         c, o = keep[0]
